@@ -41,6 +41,40 @@ theorem releaseIfUsed_eq (c : C) (id : Nat) :
     cases hd : (Alloc.deallocate c.s.pidMan id).1 <;> simp [hd]
   · simp [h]
 
+/-- what `release_packet_id` (fix ba1a812) does beyond freeing the identifier: the exchange the
+    identifier was obtained for is abandoned -/
+def abandonExchange (s : St) (id : Nat) : St :=
+  let s' : St := { s with suback := del id s.suback, unsuback := del id s.unsuback, puback := del id s.puback, pubrec := del id s.pubrec }
+  if (id ∈ s.puback ∨ id ∈ s.pubrec) ∧ s.sendMax.isSome ∧ s.sendCount > 0 then { s' with sendCount := s.sendCount - 1 } else s'
+
+/-- the state after `release_packet_id(id)` -/
+def releasedStateP (s : St) (id : Nat) : St :=
+  if isUsed s id then abandonExchange (releasedState s id) id else s
+
+theorem releasePacketId_eqP (c : C) (id : Nat) :
+    releasePacketId c id = { c with s := releasedStateP c.s id, ev := c.ev ++ releasedEv c.s id } := by
+  unfold releasedStateP releasedEv
+  by_cases h : isUsed c.s id = true
+  · have e : (releaseId c id).push (.released id) =
+        { c with s := releasedState c.s id, ev := c.ev ++ [.released id] } := by
+      have := releaseIfUsed_eq c id
+      unfold releaseIfUsed releasedEv at this
+      simpa only [h, if_true] using this
+    unfold releasePacketId
+    simp only [h, if_true]
+    rw [e]
+    unfold abandonExchange decSendCount
+    simp only []
+    by_cases ha : id ∈ (releasedState c.s id).puback ∨ id ∈ (releasedState c.s id).pubrec
+    · by_cases hc : (releasedState c.s id).sendMax.isSome = true ∧ (releasedState c.s id).sendCount > 0
+      · simp only [ha, hc, and_self, if_true]
+      · simp only [ha, hc, and_false, if_true, if_false]
+    · simp only [ha, false_and, if_false]
+  · have h' : isUsed c.s id = false := by simpa using h
+    unfold releasePacketId
+    rw [h']
+    simp only [Bool.false_eq_true, if_false, List.append_nil]
+
 /-! ## per-function gate refusals -/
 
 /-- the v5.0 size test (`MaximumPacketSize` of the peer); v3.1.1 functions have none -/
